@@ -636,6 +636,9 @@ impl Sut for Orswot<u64, A> {
     fn raw(a: &mut Args) -> Self::Op {
         orswot_raw(a)
     }
+    fn validate_only(&self, op: &Self::Op, t: &mut Out) {
+        t.call("orswot.validate_op", &[sx(self), sx(op), range_sx(self.validate_op(op))]);
+    }
     fn apply_logged(&mut self, op: &Self::Op, t: &mut Out) {
         let before = sx(self);
         t.call("orswot.validate_op", &[before.clone(), sx(op), range_sx(self.validate_op(op))]);
@@ -857,6 +860,16 @@ macro_rules! map_sut {
                 } else {
                     map::Op::Up { dot: Dot::new(a.below(4), a.below(5)), key: a.below(2), op: $raw_leaf(a) }
                 }
+            }
+            fn validate_only(&self, op: &Self::Op, t: &mut Out) {
+                let v = match self.validate_op(op) {
+                    Ok(()) => "ok".to_string(),
+                    Err(map::CmRDTValidation::SourceOrder(d)) => {
+                        format!("(source {} {} {})", d.actor, d.counter_range.start, d.counter_range.end)
+                    }
+                    Err(map::CmRDTValidation::Value(_)) => "value".to_string(),
+                };
+                t.call(concat!($name, ".validate_op"), &[sx(self), sx(op), v]);
             }
             fn apply_logged(&mut self, op: &Self::Op, t: &mut Out) {
                 let before = sx(self);
@@ -1226,6 +1239,13 @@ impl Sut for List<u64, A> {
         } else {
             list::Op::Delete { id: rand_ident_od(a), dot: Dot::new(a.below(3), a.below(4)) }
         }
+    }
+    fn validate_only(&self, op: &Self::Op, t: &mut Out) {
+        let v = guard(|| self.validate_op(op));
+        t.call("list.validate_op", &[sx(self), sx(op), match v {
+            Some(r) => range_sx(r),
+            None => "panic".into(),
+        }]);
     }
     fn apply_logged(&mut self, op: &Self::Op, t: &mut Out) {
         let before = sx(self);
